@@ -9,7 +9,7 @@ from __future__ import annotations
 import json
 import logging
 from argparse import ArgumentError
-from inspect import isfunction, signature
+from inspect import isfunction, ismethod, signature
 from io import StringIO
 from typing import TYPE_CHECKING, Any, Callable
 
@@ -220,7 +220,7 @@ class ControlSession:
             log.debug("%s received usage help", self._client_class_name)
             return
         command = kwargs.pop(CMD)
-        if isfunction(command):
+        if isfunction(command) or ismethod(command):
             await self._exec_method_and_respond(command, **kwargs)
         elif isinstance(command, property):
             await self._exec_property_and_respond(command, **kwargs)
